@@ -1180,6 +1180,7 @@ STD_ENUMS = {
     "std::option::Option": {"kind": "enum", "variants": [{"name": "None", "discr": 0}, {"name": "Some", "discr": 1}]},
     "std::result::Result": {"kind": "enum", "variants": [{"name": "Ok", "discr": 0}, {"name": "Err", "discr": 1}]},
     "std::ops::ControlFlow": {"kind": "enum", "variants": [{"name": "Continue", "discr": 0}, {"name": "Break", "discr": 1}]},
+    "std::cmp::Ordering": {"kind": "enum", "variants": [{"name": "Less", "discr": -1}, {"name": "Equal", "discr": 0}, {"name": "Greater", "discr": 1}]},
 }
 
 
